@@ -157,6 +157,13 @@ def run_scenario(sc, workdir, crash_call=None, crash_k=None):
             real_os.remove(a)
             hit("remove", a)
 
+        @staticmethod
+        def rename(a, b):
+            # not used by the code as it stands; a file step like the others (a crash may fall right before it) if it ever is
+            before("rename")
+            real_os.rename(a, b)
+            hit("replace", b)
+
     saved = (eo.__dict__.get("open"), eo.dill, eo.os)
     eo.open, eo.dill, eo.os = w_open, WDill, WOs()
     crashed = False
